@@ -164,3 +164,29 @@ CORE_SEP = ["abab", "ab63ab51ab68ab", "63ab67ab68", "63abab67abab68", "636351ab6
 SUB_LENS = [252, 253, 255, 256, 509, 65021, 65535, 65536]
 # 253 identical all-zero inputs and 256 all-zero outputs (counts on the compact-size boundary): descriptor, not a literal
 BIG_COUNT_TX = "02000000+fdfd00+r:00:%d+fd0001+r:00:%d+00000000" % (253 * 41, 256 * 9)
+
+
+def cs(n, form):
+    """compact size of n in a chosen (possibly non-minimal) form: '' minimal, 'fd', 'fe', 'ff'"""
+    if form == "":
+        return varint(n)
+    w = {"fd": 2, "fe": 4, "ff": 8}[form]
+    return bytes.fromhex(form) + n.to_bytes(w, "little")
+
+
+def build_tx_nc(ver, ins, outs, lt, f_nin="", f_inscr="", f_nout="", f_outscr=""):
+    """like build_tx, with non-minimal compact sizes where asked (accepted by the parser, normalised by the serialiser)"""
+    b = ver.to_bytes(4, "little") + cs(len(ins), f_nin)
+    for (txid, vout, scr, seq) in ins:
+        b += txid + vout.to_bytes(4, "little") + cs(len(scr), f_inscr) + scr + seq.to_bytes(4, "little")
+    b += cs(len(outs), f_nout)
+    for (val, scr) in outs:
+        b += val.to_bytes(8, "little") + cs(len(scr), f_outscr) + scr
+    return b + lt.to_bytes(4, "little")
+
+
+NC_INS = [(tid(31), 1, b"\x51", 0x01020304), (tid(32), 0, b"", 0x0A0B0C0D)]
+NC_OUTS = [(1234, P2(4)), (2 ** 40, b"\x6a")]
+NONCANONICAL_TXS = ([build_tx_nc(2, NC_INS, NC_OUTS, 9, **{k: f}) for k in ("f_nin", "f_inscr", "f_nout", "f_outscr") for f in ("fd", "fe", "ff")]
+                    + [build_tx_nc(2, NC_INS, NC_OUTS, 9, f, f, f, f) for f in ("fd", "fe", "ff")]
+                    + [build_tx_nc(2, NC_INS, NC_OUTS, 9, "fd", "ff", "fe", "fd")])
